@@ -145,6 +145,7 @@ def warm():
     t = time.time()
     yardl_bin()
     harness_bin()
+    run(["go", "build", "-o", os.path.join(scratch(), "bin", "maprange"), "./maprange"], cwd=os.path.join(VERIF, "gotools"), env=goenv(), check=True)
     print("setup: yardl + harness built in %.1fs" % (time.time() - t))
 
 
